@@ -1,6 +1,7 @@
 package main
 
 import (
+	"golang.org/x/tools/go/ssa/ssautil"
 	"regexp"
 	"fmt"
 	"go/constant"
@@ -420,6 +421,11 @@ func (x *Exec) applyContract(st *State, key string, fc *FuncContract, sig *types
 	bindResults(env2, sig, rv)
 	for _, c := range fc.Ensures {
 		if !x.activeClause(c) {
+			continue
+		}
+		// a clause about the calls the callee made speaks about the callee's own activation: it is an obligation of the
+		// callee and tells the caller nothing (evaluated here it would talk about the caller's calls)
+		if mentionsCall(c.E, "ncalls") || mentionsCall(c.E, "callarg") || mentionsCall(c.E, "callres") {
 			continue
 		}
 		x.assumeClause(st, env2, c)
@@ -1185,4 +1191,17 @@ func (x *Exec) sprintf(st *State, c *ssa.CallCommon, args []Val) (Val, bool) {
 
 func constantString(c *ssa.Const) string {
 	return constant.StringVal(c.Value)
+}
+
+// sigByLogKey: the signature of the function a call-log name refers to (any function of the program, also library ones)
+func (w *World) sigByLogKey(name string) *types.Signature {
+	if w.logSigs == nil {
+		w.logSigs = map[string]*types.Signature{}
+		for f := range ssautil.AllFunctions(w.prog) {
+			if f.Signature != nil {
+				w.logSigs[logKey(f.String())] = f.Signature
+			}
+		}
+	}
+	return w.logSigs[name]
 }
